@@ -5,7 +5,8 @@
    invariance of the function, Proofs/InsertSeq.v / Proofs/InsertList.v (Boehm). *)
 From Coq Require Import QArith List Bool Arith Permutation.
 From NurbsV Require Import Base.Res Base.QList Spec.KnotSpec Spec.BSpline Model.KV Model.Basis Model.CurveM Model.Ops Model.CurveOps.
-From NurbsV Require Import Proofs.Local Proofs.Boehm Proofs.InsertBasic.
+From NurbsV Require Proofs.EvalProofs.
+From NurbsV Require Import Proofs.Local Proofs.Boehm Proofs.InsertBasic Proofs.InsertSeq Proofs.InsertList Proofs.InsertCompose Proofs.InsertCurve.
 Import ListNotations.
 Open Scope Q_scope.
 
@@ -48,6 +49,99 @@ Theorem C04_boehm : forall (U : nat -> Q) (k : nat) (x : Q),
 Proof. exact boehm. Qed.
 Print Assumptions C04_boehm.
 
+(* ---- the curve is the same function of u, for every u of the interval (Proofs/InsertList, InsertCompose,
+   InsertCurve): one Boehm step, the composed matrix of knot_insert, polynomial and rational curves.
+   The hypothesis kdeg (ckv c') = cdeg c excludes only requests containing an end knot of the vector
+   (the library re-infers the degree of the new vector; such a request fails in apply, see C04_nonvacuous_refused). ---- *)
+Theorem C04_function_spline :
+  forall (c : curve) (nodes : list Q) (c' : curve) (P : list (list Q)) (d : nat) (u : Q),
+       c_knot_insert c nodes = Ok c' ->
+       WF (kvec (ckv c)) (cdeg c) ->
+       kdeg (ckv c') = cdeg c ->
+       cP c = Some P ->
+       cW c = None ->
+       length P = cnpts c ->
+       Forall (fun pt : list Q => length pt = d) P ->
+       in_range (kvec (ckv c)) (cdeg c) u = true ->
+       exists P' : list pt,
+         cP c' = Some P' /\
+         cW c' = None /\
+         length P' = cnpts c' /\
+         Forall2 Qeq (curve_spec (kvec (ckv c')) (cdeg c) d P' u) (curve_spec (kvec (ckv c)) (cdeg c) d P u).
+Proof. exact c_knot_insert_spline. Qed.
+Print Assumptions C04_function_spline.
+
+Theorem C04_function_rational :
+  forall (c : curve) (nodes : list Q) (c' : curve) (P : list (list Q)) (Wt : list Q) (d : nat) (u : Q),
+       c_knot_insert c nodes = Ok c' ->
+       WF (kvec (ckv c)) (cdeg c) ->
+       kdeg (ckv c') = cdeg c ->
+       cP c = Some P ->
+       cW c = Some Wt ->
+       length P = cnpts c ->
+       length Wt = cnpts c ->
+       Forall (fun pt : list Q => length pt = d) P ->
+       in_range (kvec (ckv c)) (cdeg c) u = true ->
+       exists (P' : list pt) (W' : list Q),
+         cP c' = Some P' /\
+         cW c' = Some W' /\
+         length P' = cnpts c' /\
+         length W' = cnpts c' /\
+         Forall2 Qeq (rational_spec (kvec (ckv c')) (cdeg c) d W' P' u)
+           (rational_spec (kvec (ckv c)) (cdeg c) d Wt P u).
+Proof. exact c_knot_insert_rational. Qed.
+Print Assumptions C04_function_rational.
+
+Theorem C04_weights_stay_positive :
+  forall (c : curve) (nodes : list Q) (c' : curve) (Wt : list Q),
+       c_knot_insert c nodes = Ok c' ->
+       WF (kvec (ckv c)) (cdeg c) ->
+       cW c = Some Wt ->
+       length Wt = cnpts c ->
+       Forall (fun w : Q => 0 < w) Wt ->
+       exists W' : list Q, cW c' = Some W' /\ Forall (fun w : Q => 0 < w) W'.
+Proof. exact c_knot_insert_weights_pos. Qed.
+Print Assumptions C04_weights_stay_positive.
+
+Theorem C04_matrix_preserves_curve :
+  forall (k : kv) (nodes : list Q) (M : mat) (k' : kv),
+       WF (kvec k) (kdeg k) ->
+       knot_insert k nodes = Ok M ->
+       kinsert k nodes = Ok k' ->
+       kdeg k' = kdeg k ->
+       length M = knpts k' /\
+       (forall (P : list Q) (u : Q),
+        length P = knpts k ->
+        in_range (kvec k) (kdeg k) u = true ->
+        curve_spec1 (kvec k') (kdeg k) (mvec M P) u == curve_spec1 (kvec k) (kdeg k) P u).
+Proof. exact knot_insert_curve. Qed.
+Print Assumptions C04_matrix_preserves_curve.
+
+Theorem C04_one_insertion :
+  forall (U : list Q) (p : nat),
+       WF U p ->
+       forall (x : Q) (s : nat),
+       in_range U p x = true ->
+       ~ x == umax_of U p ->
+       span_ok U p x s = true ->
+       forall P : list Q,
+       length P = npts_of U p ->
+       forall u : Q,
+       in_range U p u = true ->
+       curve_spec1 (ins_kv U x) p (mvec (ins_matrix U p (npts_of U p) s x) P) u == curve_spec1 U p P u.
+Proof. exact insert_once_curve. Qed.
+Print Assumptions C04_one_insertion.
+
+Theorem C04_one_insertion_wf :
+  forall (U : list Q) (p : nat),
+       WF U p ->
+       forall (x : Q) (s : nat),
+       in_range U p x = true ->
+       ~ x == umax_of U p -> span_ok U p x s = true -> (count_q x U < p + 1)%nat -> WF (ins_kv U x) p.
+Proof. exact ins_kv_wf. Qed.
+Print Assumptions C04_one_insertion_wf.
+
+
 (* non-vacuity: inserting [1/3; 1/3; 0] into a degree-2 curve on [-1,-1,-1,0,1/3,1,1,1] succeeds *)
 Example C04_nonvacuous :
   exists c', c_knot_insert
@@ -55,3 +149,14 @@ Example C04_nonvacuous :
      [1#3; 1#3; 0] = Ok c'
   /\ kvec (ckv c') = [-1; -1; -1; 0; 0; 1#3; 1#3; 1#3; 1; 1; 1].
 Proof. eexists. split; vm_compute; reflexivity. Qed.
+
+(* a request that pushes an end multiplicity above degree+1 is refused by the model (ValueError), as by the library *)
+Example C04_nonvacuous_refused :
+  c_knot_insert (mkcurve (mkkv [0; 1#2; 1] 0) (Some [[0]; [-2]]) None) [0; 1] = Err ValueError.
+Proof. vm_compute. reflexivity. Qed.
+Example C04_nonvacuous_function :
+  match c_knot_insert EvalProofs.ex_curve InsertCurve.ex_nodes with
+  | Ok c' => Nat.eqb (kdeg (ckv c')) (cdeg EvalProofs.ex_curve)
+  | Err _ => false
+  end = true.
+Proof. vm_compute. reflexivity. Qed.
